@@ -56,7 +56,9 @@ type childResult struct {
 	Mismatch string `json:"mismatch,omitempty"`
 	Queries  int    `json:"queries"`
 	FirstNS  int    `json:"first_time_namespace_lookups"`
-	Panic    string `json:"panic,omitempty"`
+	// ThroughIO: rounds in which every reader began with a lookup through the input or output of an operation
+	ThroughIO int    `json:"rounds_with_lookups_through_input_output,omitempty"`
+	Panic     string `json:"panic,omitempty"`
 }
 
 func dumpSet(ms *yang.Modules) string {
@@ -314,6 +316,16 @@ func runReaders(c Case) childResult {
 		}
 		// make sure first-time namespace lookups are issued simultaneously: the first query of every reader
 		qs[0] = query{"im", int(lcg(&seed) % 4096)}
+		// ... and the second a lookup that leads through the input or output of an operation, when there is one
+		// (they stand first in c.Paths): the other half of the operation must be left alone
+		nIO := 0
+		for nIO < len(c.Paths) && (strings.Contains(c.Paths[nIO].Path, ":input/") || strings.Contains(c.Paths[nIO].Path, ":output/")) {
+			nIO++
+		}
+		if nIO > 0 && nq > 2 {
+			qs[1] = query{"find", int(lcg(&seed) % uint32(nIO))}
+			res.ThroughIO++
+		}
 		got := make([][]string, c.Goroutines)
 		var wg sync.WaitGroup
 		start := make(chan struct{})
@@ -323,8 +335,8 @@ func runReaders(c Case) childResult {
 				order[i] = i
 			}
 			s := seed + uint32(g)*104729
-			for i := nq - 1; i > 1; i-- { // query 0 stays first
-				j := 1 + int(lcg(&s)%uint32(i))
+			for i := nq - 1; i > 2; i-- { // queries 0 and 1 stay first
+				j := 2 + int(lcg(&s)%uint32(i-1))
 				order[i], order[j] = order[j], order[i]
 			}
 			wg.Add(1)
@@ -481,7 +493,24 @@ func check(c Case) (o ev.Outcome) {
 		return
 	}
 	o.NonTrivial = c.Goroutines >= 2 && res.Queries > 0
+	if res.ThroughIO > 0 {
+		o.Class("readers-begin-with-a-lookup-through-input-or-output")
+	}
 	return o
+}
+
+// belowIOFirst puts the lookups that lead through the input or output of an operation in front (up to twelve), so
+// that the cut to 40 keeps them: such a lookup must not touch the other half of the operation.
+func belowIOFirst(ps []PathQ) []PathQ {
+	var io, rest []PathQ
+	for _, p := range ps {
+		if len(io) < 12 && (strings.Contains(p.Path, ":input/") || strings.Contains(p.Path, ":output/")) {
+			io = append(io, p)
+		} else {
+			rest = append(rest, p)
+		}
+	}
+	return append(io, rest...)
 }
 
 func genSet(t *rapid.T) (*ymodel.Set, []PathQ) {
@@ -500,14 +529,16 @@ func genSet(t *rapid.T) (*ymodel.Set, []PathQ) {
 				continue
 			}
 			for _, tg := range schema.AllNodes(set, trees, m) {
-				// never name unwritten input/output (the lookup would create it: a write)
-				if tg.Node.Kind == ymodel.KInput || tg.Node.Kind == ymodel.KOutput || strings.Contains(tg.Path, ":input") || strings.Contains(tg.Path, ":output") {
+				// never name an input or output itself (when it is not written, the lookup would create it: a write);
+				// nodes below one are named: that input or output exists, the other half of the operation may not
+				if tg.Node.Kind == ymodel.KInput || tg.Node.Kind == ymodel.KOutput {
 					continue
 				}
 				paths = append(paths, PathQ{From: m.Name, Path: tg.Path})
 			}
 		}
 	}
+	paths = belowIOFirst(paths)
 	if len(paths) > 40 {
 		paths = paths[:40]
 	}
@@ -532,7 +563,7 @@ func genSet(t *rapid.T) (*ymodel.Set, []PathQ) {
 			}
 			k := 0
 			for _, tg := range schema.AllNodes(set, trees, m) {
-				if tg.Node.Kind == ymodel.KInput || tg.Node.Kind == ymodel.KOutput || strings.Contains(tg.Path, ":input") || strings.Contains(tg.Path, ":output") {
+				if tg.Node.Kind == ymodel.KInput || tg.Node.Kind == ymodel.KOutput {
 					continue
 				}
 				inner = append(inner, PathQ{From: owner.Name, Start: starts[k%len(starts)], Path: tg.Path})
@@ -545,6 +576,7 @@ func genSet(t *rapid.T) (*ymodel.Set, []PathQ) {
 				inner = append(inner, PathQ{From: owner.Name, Start: a, Path: "../" + starts[(i+1)%len(starts)]})
 			}
 		}
+		inner = belowIOFirst(inner)
 		if len(inner) > 40 {
 			inner = inner[:40]
 		}
@@ -612,7 +644,7 @@ func TestCheck(t *testing.T) {
 	ev.Run(t, ev.Spec[Case]{
 		ID:    "C19",
 		Level: "exploration",
-		Rule: "cases run in a child process built with the race detector (GOMAXPROCS=8). Mode 'pipelines': 8-16 goroutines released by a barrier, each loading, processing and dumping its own module set (1-3 distinct generated sets with typedefs, identities, submodules, augments), 3 rounds. A third of the pipeline cases put a text with lexical errors (undefined escapes, unclosed quotes and comments; own name and wording per set) first in every set. Mode 'readers': one processed set (in a third of the cases one whose modules hold unknown groupings and types, so that entries carry errors of their own and of descendants), 8-16 goroutines each issuing the same 60 generated queries in its own shuffled order (cached entry lookup, path lookup of existing nodes with resolvable prefixes - from module roots and from top-level nodes written in a module or one of its submodules, absolute with the prefixes of the text holding the start node and relative to a sibling -, Namespace, InstantiatingModule, FindModuleByNamespace, ReadOnly, DefaultValues, GetErrors, Path, Print), the first query of every reader being a first-time instantiating-module lookup, 4 rounds on freshly processed sets. " +
+		Rule: "cases run in a child process built with the race detector (GOMAXPROCS=8). Mode 'pipelines': 8-16 goroutines released by a barrier, each loading, processing and dumping its own module set (1-3 distinct generated sets with typedefs, identities, submodules, augments), 3 rounds. A third of the pipeline cases put a text with lexical errors (undefined escapes, unclosed quotes and comments; own name and wording per set) first in every set. Mode 'readers': one processed set (in a third of the cases one whose modules hold unknown groupings and types, so that entries carry errors of their own and of descendants), 8-16 goroutines each issuing the same 60 generated queries in its own shuffled order (cached entry lookup, path lookup of existing nodes with resolvable prefixes - from module roots and from top-level nodes written in a module or one of its submodules, absolute with the prefixes of the text holding the start node and relative to a sibling -, Namespace, InstantiatingModule, FindModuleByNamespace, ReadOnly, DefaultValues, GetErrors, Path, Print), the first query of every reader being a first-time instantiating-module lookup and the second, where the set has one, a lookup of a node below the input or output of an rpc or action (the other half of the operation may be unwritten and must stay so), 4 rounds on freshly processed sets. " +
 			"Oracle: no report from the race detector on the child's output, no panic, and every goroutine's results equal those of a sequential run on a fresh set. " +
 			"Non-trivial = at least 2 goroutines actually ran; distinct by case",
 		Assumptions: []string{
